@@ -33,6 +33,7 @@ OUT = '/db/Recovered.fs'
 ASSUMPTIONS = [
     'destination mapping: only histories without undo records or repeated stores (MappingStorage has no restore(); the '
     'documented store() fallback of copy() cannot reproduce those)',
+    'blob_copy runs on a scratch directory of the real file system (as C13); blob contents are short concrete byte strings',
     'source histories: templates T1-T6, T12 (two undos of one object in one transaction, later change, undo of it), (undo records, un-creation, restore with back-pointer hints, deleteObject) and a '
     'packed graph history; destination kinds file and mapping',
     'recovery: damage = one region: truncation at a symbolic length, or 1/4 bytes at a solver-chosen offset replaced by a '
@@ -301,6 +302,66 @@ def h_recover_damaged(off: int, template: str, nbytes: int, cls: int) -> None:
     reached()
 
 
+
+def h_blob_copy(u1: bool, w3: bool, u2: bool, with_new: int, packsel: int, dest: str) -> None:
+    """A source with blobs (solver-chosen history of writes, undos - incl. undo of a creation - and packs) is
+    copied with copyTransactionsFrom into a blob-aware destination: same transactions and records, and for
+    every blob revision of the source the destination serves a blob file with the same bytes.
+    Runs on a scratch directory of the real file system (blob files are io.FileIO objects), like C13."""
+    import os
+    from zverif.harness import c13
+    pk = ['pack', 'pack_mid', 'nothing'][choose(packsel, 3)]
+    wn = choose(with_new, 3)
+    codes = (['new'] if wn == 1 else []) + ['rewrite0', 'commit'] + (['new'] if wn == 2 else []) + ['append0', 'commit'] \
+        + (['undo'] if u1 else []) + (['consume0', 'commit'] if w3 else []) + (['undo'] if u2 else []) + [pk]
+    codes = [x for x in codes if x != 'nothing']
+    with untraced():
+        import ZODB.blob
+        import ZODB.MappingStorage
+        w = c13.BlobWorld('file')
+        d = None
+        try:
+            w.new(False)
+            w.commit()
+            for code in codes:
+                if c13._step(w, code, True) is None:
+                    assume(False)
+            note('prog', ' '.join(codes))
+            ddir = os.path.join(w.dir, 'dest')
+            os.mkdir(ddir)
+            if dest == 'file':
+                d = F.FileStorage(os.path.join(ddir, 'Copy.fs'), blob_dir=os.path.join(ddir, 'blobs'))
+            else:
+                d = ZODB.blob.BlobStorage(os.path.join(ddir, 'blobs'), F.FileStorage(os.path.join(ddir, 'Copy.fs')))
+            d.copyTransactionsFrom(w.s)
+            src = [B.txn_view(t) for t in w.s.iterator()]
+            got = [B.txn_view(t) for t in d.iterator()]
+            check(got == src, 'the copy iterates other transactions / records than the source')
+            for name, rs in w.revs.items():
+                for tid, data, _src in rs:
+                    oid = w.oid[name]
+                    try:
+                        fn = d.loadBlob(oid, tid)
+                    except Exception as ex:
+                        fail('the copy has no blob file for a blob revision of the source', name, tid, type(ex).__name__)
+                    with open(fn, 'rb') as fh:
+                        check(fh.read() == data, 'blob bytes in the copy differ from the source', name, tid)
+            # and nothing else: every *.blob file of the copy belongs to a revision of the source
+            want = set(d.fshelper.getBlobFilename(w.oid[n_], r[0]) for n_, rs in w.revs.items() for r in rs)
+            have = set()
+            for dp, dn, fn in os.walk(os.path.join(ddir, 'blobs')):
+                for f in fn:
+                    if f.endswith('.blob'):
+                        have.add(os.path.join(dp, f))
+            check(have == want, 'the copy holds blob files that are not blob revisions of the source',
+                  sorted(os.path.relpath(p_, ddir) for p_ in have ^ want))
+        finally:
+            if d is not None:
+                d.close()
+            w.destroy()
+    reached()
+
+
 _SRC = ['T1', 'T2', 'T4', 'T5', 'T6']
 HARNESSES = [
     Harness('copy', h_copy,
@@ -316,6 +377,15 @@ HARNESSES = [
                        + shards(template=['T1', 'T3'], dest=['mapping'], use_start=[False], use_stop=[False])),
             thorough=dict(timeout=900, shards=shards(template=_SRC + ['PACKED', 'T12'], dest=['file'], use_start=[True, False], use_stop=[True, False])
                           + shards(template=['T1', 'T3'], dest=['mapping'], use_start=[True, False], use_stop=[False]))),
+    Harness('blob_copy', h_blob_copy,
+            decides='copyTransactionsFrom between blob-aware storages reproduces every transaction and record and, for every blob '
+                    'revision the source holds (incl. revisions written by undo, after packs), a blob file with the same bytes - and no others',
+            symbolic='history selectors: undo after the 2nd write, a 3rd write, undo at the end, a second blob (none / in txn 1 / in txn 2), '
+                     'pack (to now / to an earlier time / none)', bounds='<= 2 blobs, <= 6 source transactions; destination FileStorage+blob_dir or BlobStorage(FileStorage)',
+            oracle='C13 model of committed blob revisions + iteration of the source',
+            code=['ZODB.blob.copyTransactionsFromTo', 'BlobStorageMixin.restoreBlob/loadBlob/is_blob_record', 'FileStorage.restore', 'FileIterator'],
+            quick=dict(timeout=200, shards=shards(dest=['file', 'blobproxy'])),
+            thorough=dict(timeout=600, shards=shards(dest=['file', 'blobproxy']))),
     Harness('recover_clean', h_recover_clean,
             decides='fsrecover on an undamaged file reproduces the history (every revision query)',
             symbolic='template selector', bounds='templates T1-T6, T10', oracle='RevStore battery',
